@@ -60,6 +60,7 @@ type Location struct {
 	MapID [2]byte // The map in which we found the name.
 	Mask  uint8   // The subnet mask we found a match for. Used for ECS.
 	LocID [2]byte // The location id.
+	ECS   bool    // The location was found through the client subnet (EcsLocation), not the resolver address.
 }
 
 // FindECS finds a EDNS0_SUBNET option in a DNS Msg.
@@ -181,6 +182,7 @@ func (r *DataReader) EcsLocation(q []byte, ecs *dns.EDNS0_SUBNET) (*Location, er
 	}
 	// We found a match
 	if loc.LocID != [2]byte{0, 0} {
+		loc.ECS = true
 		ecs.SourceScope = loc.Mask
 		if ecs.Family == 1 {
 			ecs.SourceScope -= 96
